@@ -134,6 +134,9 @@ class Scheduler(object):
             return
         if self.aborting:
             raise SchedAbort()
+        if getattr(self, 'atomic', 0):
+            # a program step declared atomic (its interleavings are not what the program is about)
+            return
         me = self.current
         self.step += 1
         if self.step > self.max_steps:
